@@ -901,7 +901,10 @@ func (e *Engine) assertion(label string, c *smt.Term) {
 	e.noteObligation(label, false)
 	switch r {
 	case smt.Unsat:
-		// holds on this path
+		// holds on this path; in the thorough tier a second solver must not disagree
+		if e.cfg.CrossSolver != "" && e.mergedDepth == 0 {
+			e.crossCheck(label, neg)
+		}
 	case smt.Sat:
 		e.addFinding(Finding{Kind: "assert", Label: label, Model: m})
 	default:
@@ -1072,5 +1075,36 @@ func (e *Engine) writeStdout(s Value) {
 	f.content = append(append([]Value{}, f.content...), e.strToByteVals(s)...)
 	if f.std == "stdout" {
 		e.stdout = append(e.stdout, s)
+	}
+}
+
+// crossCheck re-discharges an unsat assertion verdict on another solver.
+func (e *Engine) crossCheck(label string, neg *smt.Term) {
+	if e.xsolver == nil {
+		xs, err := smt.NewSolver(e.cfg.CrossSolver, e.cfg.SolverTimeout)
+		if err != nil {
+			e.abort(abortEngine, "cannot start cross-check solver: "+err.Error())
+		}
+		e.xsolver = xs
+	}
+	xs := e.xsolver
+	xs.Lost = false
+	xs.Push()
+	for _, c := range e.pc {
+		xs.Assert(c)
+	}
+	r := xs.Check(neg)
+	if r == smt.Sat {
+		xs.EndCheck()
+	}
+	for xs.Level() > 0 {
+		xs.Pop()
+	}
+	e.Stats.CrossChecked++
+	switch r {
+	case smt.Sat:
+		e.abort(abortEngine, "solver disagreement on assertion "+label+": "+e.cfg.SolverKind+" says unsat, "+e.cfg.CrossSolver+" says sat")
+	case smt.Unknown:
+		e.Stats.CrossUnknown++
 	}
 }
